@@ -33,11 +33,9 @@ def make_handler(world, kind):
     from supervisor.dispatchers import RejectEvent, default_handler
 
     def who(event):
-        for pi, ls in enumerate(world.listeners):
-            for li, p in enumerate(ls):
-                if event is not None and p.event is event:
-                    return '%d.%d' % (pi, li)
-        return '?'
+        # the result handler runs inside the read/finish of the listener being operated on; the same event
+        # object can be held by listeners of several pools, so the holder is not looked up by identity
+        return '%d.%d' % world.cur if world.cur is not None else '?'
 
     def strict(event, result):
         world.trace.append('h:%s:%s:%s' % (who(event), world.evname(event), hexs(result)))
@@ -70,6 +68,7 @@ class World:
         self.evobjs = []       # keeps the objects alive
         self.next_ev = 0
         self.exc = None
+        self.cur = None
         sp.time = types.SimpleNamespace(time=lambda: 1000.0)
         sp.GlobalSerial.serial = -1
         events.clear()
@@ -247,6 +246,7 @@ class World:
 
     def read(self, pi, li, data):
         p = self.proc(pi, li)
+        self.cur = (pi, li)
 
         def f():
             d = self.stdout_disp(p)
@@ -266,6 +266,7 @@ class World:
 
     def die(self, pi, li, data):
         p = self.proc(pi, li)
+        self.cur = (pi, li)
 
         def f():
             d = self.stdout_disp(p)
